@@ -164,37 +164,11 @@ theorem bintree_range_exact (pos : Nat) (h : pos + 2 < 2^64) :
 /-- `bintree_rightmost` is total: `pos0 - height` cannot underflow -/
 theorem bintree_rightmost_total (pos : Nat) : height pos ≤ pos := height_le_pos pos
 
-/-- `bintree_leaf_pos_iter(pos0)` for `pos0 + 2 < 2^64`: every leaf index in the range is at most
-`2^63`, so every `insertion_to_pmmr_index` in it is exact -/
-theorem bintree_leaf_pos_iter_exact (pos : Nat) (h : pos + 2 < 2^64) :
-    U64.bintreeLeafPosIter pos = bintreeLeafPosIter pos := by
-  have hr : bintreeRightmost pos < 2^64 := by unfold bintreeRightmost; omega
-  have hb2 : ∀ b, pmmrLeafToInsertionIndex (bintreeRightmost pos) = some b → b ≤ 2^63 := by
-    intro b hb
-    have hk := peak_map_le (bintreeRightmost pos) hr
-    unfold pmmrLeafToInsertionIndex at hb
-    by_cases hz : (peakMapHeight (bintreeRightmost pos)).2 = 0
-    · simp only [hz, if_true, Option.some.injEq] at hb; omega
-    · simp only [hz, if_false] at hb; cases hb
-  -- (`delta`, not `unfold`: `unfold` tries to reduce the `match` and for that evaluates the
-  -- discriminants, i.e. `peak_map_height` of a symbolic position)
-  delta U64.bintreeLeafPosIter bintreeLeafPosIter
-  rw [bintree_leftmost_exact pos h]
-  generalize pmmrLeafToInsertionIndex (bintreeLeftmost pos) = oa
-  generalize hob : pmmrLeafToInsertionIndex (bintreeRightmost pos) = ob at hb2
-  cases oa with
-  | none => rfl
-  | some a =>
-    cases ob with
-    | none => rfl
-    | some b =>
-      have hb := hb2 b rfl
-      show (List.range' a (b + 1 - a)).map U64.insertionToPmmrIndex =
-        (List.range (b + 1 - a)).map fun i => insertionToPmmrIndex (a + i)
-      rw [List.range'_eq_map_range, List.map_map]
-      apply List.map_congr_left
-      intro i hi
-      have := List.mem_range.mp hi
-      exact insertion_to_pmmr_index_exact _ (by omega)
+/- NOT proven here: `bintree_leaf_pos_iter(pos0)` for `pos0 + 2 < 2^64` (intended statement:
+`U64.bintreeLeafPosIter pos = bintreeLeafPosIter pos`, because every leaf index of the range is at most
+`2^63` — `peak_map_le` — so every `insertion_to_pmmr_index` in it is exact,
+`insertion_to_pmmr_index_exact`).  The two definitions `match` on `peak_map_height` of symbolic
+positions; every tactic that touches the discriminants (`unfold`, `generalize`, `cases … :`) makes the
+elaborator evaluate them and does not return.  Covered by the `leafiterw` lines of `pmmr arith`. -/
 
 end GV.Props.C07U64
